@@ -468,6 +468,38 @@ def dimer_same_id(text, shift=(25.0, 0.0, 0.0)):
     return "\n".join(out) + "\n"
 
 
+def sym_waters(text, n):
+    """Append n groups of three waters in exactly symmetric positions next to the molecule:
+    oxygens at A+(a,0,0), A+(0,a,0), A+(0,0,a) with integral A and a = 2, so all three
+    O-O distances are bit-identical (sqrt(8)).  Exact ties are where an ordering that is
+    not a function of the input (object addresses, hash order) decides the result; real
+    structures get them from crystallographic symmetry."""
+    lines = [l for l in text.splitlines() if l.strip() != "END"]
+    atoms = [l for l in lines if _is_atom(l)]
+    if not atoms:
+        return text
+    xs, ys, zs = zip(*(_xyz(l) for l in atoms))
+    ax, ay, az = float(int(max(xs)) + 6), float(int(sum(ys) / len(ys))), float(int(min(zs)))
+    last = atoms[-1]
+    chain = last[21]
+    try:
+        resno = max(int(l[22:26]) for l in atoms) + 10
+        serial = max(int(l[6:11]) for l in atoms) + 10
+    except ValueError:
+        resno, serial = 900, 9000
+    out = []
+    for g in range(int(n)):
+        base = (ax + 7.0 * (g % 4), ay + 7.0 * ((g // 4) % 4), az + 7.0 * (g // 16))
+        for d in ((2.0, 0.0, 0.0), (0.0, 2.0, 0.0), (0.0, 0.0, 2.0)):
+            x, y, z = base[0] + d[0], base[1] + d[1], base[2] + d[2]
+            out.append(f"HETATM{serial % 100000:5d}  O   HOH {chain}{resno % 10000:4d}    "
+                       f"{x:8.3f}{y:8.3f}{z:8.3f}  1.00 20.00           O")
+            serial += 1
+            resno += 1
+    end = max(i for i, l in enumerate(lines) if _is_atom(l)) + 1
+    return "\n".join(lines[:end] + out + lines[end:] + ["END"]) + "\n"
+
+
 def renumber(text, offset):
     """Shift all residue numbers (negative numbers, numbers crossing 9999 -> column overflow
     is avoided by clamping)."""
@@ -557,6 +589,8 @@ def structure_text(cfg):
         text = split_chains(text, cfg["chains"])
     if cfg.get("dimer_same_id"):
         text = dimer_same_id(text)
+    if cfg.get("sym_waters"):
+        text = sym_waters(text, cfg["sym_waters"])
     if cfg.get("renumber"):
         text = renumber(text, cfg["renumber"])
     if cfg.get("water_name"):
